@@ -3,4 +3,4 @@
 f=$1; n=$2
 mkdir -p /tmp/dbg
 sed "${n}s/^/Show. Abort. Definition dbgdummy := 0. Reset dbgdummy. (* /; ${n}s/\$/ *)/" "$f" | head -n "$n" > /tmp/dbg/D.v
-cd /verif/coq && timeout 120 coqc -Q theories Cstl /tmp/dbg/D.v 2>&1 | tail -${3:-40}
+cd "$(dirname "$0")" && timeout 120 coqc -Q theories Cstl /tmp/dbg/D.v 2>&1 | tail -${3:-40}
